@@ -781,7 +781,14 @@ func (r *resolver) cloneDefs(parent HasDataDefinitions, defs []Definition, when 
 	for i, d := range defs {
 		copy[i] = d.(cloneable).clone(parent).(Definition)
 		if when != nil {
-			copy[i].(HasWhen).setWhen(when)
+			if own := copy[i].(HasWhen).When(); own != nil {
+				// the node states a when of its own
+				both := *when
+				both.also = own
+				copy[i].(HasWhen).setWhen(&both)
+			} else {
+				copy[i].(HasWhen).setWhen(when)
+			}
 		}
 	}
 	return copy
@@ -916,10 +923,11 @@ func (r *resolver) expandAugment(y *Augment, parent Meta) error {
 	for _, orig := range y.DataDefinitions() {
 		var err error
 		d := orig.(cloneable).clone(target).(Definition)
-		if hw, hasWhen := d.(HasWhen); hasWhen && y.when != nil && hw.When() == nil {
+		if hw, hasWhen := d.(HasWhen); hasWhen && y.when != nil {
 			// the when of the augment is about every node it adds
 			handedDown := *y.when
 			handedDown.fromAncestor = true
+			handedDown.also = hw.When()
 			hw.setWhen(&handedDown)
 		}
 		if targetIsChoice {
